@@ -352,6 +352,18 @@ func c09RunDirected(name string, W int) string {
 		} else {
 			c.setWorkers(W, true)
 		}
+	case "resize-overkill":
+		// NOT in the default corpus (exhibits the resize race of the current code): a worker that took a
+		// kill request is still in workerMap when the next SetWorkerCount computes workerKill.
+		c.setWorkers(W+2, false)
+		c.quiesce()
+		r := s.AddRule("w*", "pool.get.killexit", 1)
+		c.setWorkers(W+1, false)
+		r.WaitParked(1, 500*time.Millisecond)
+		c.rsNA = false
+		c.downUnwaited = 0
+		c.setWorkers(W, false)
+		s.Release(r)
 	case "joinall-burst":
 		c.setWorkers(W, false)
 		for k := 0; k < 10; k++ {
@@ -500,8 +512,9 @@ func c09GenProg(r *Rand, W int, g *Gen) string {
 			if r.Intn(3) == 0 {
 				k = 1 + r.Intn(3)
 			}
-			if unwaitedDown && r.Intn(4) > 0 {
-				// a resize computed from a stale worker count is outside the judged scope: mostly avoid it
+			if unwaitedDown {
+				// a resize computed from a stale worker count can over-/under-shoot and even hang (finding
+				// resize-race, see `D resize-overkill`): not generated
 				ops = append(ops, "q")
 				unwaitedDown = false
 			}
